@@ -136,7 +136,7 @@ func c06plan(tier string, seed int64) []run.Job {
 	nr, per := 16, 400
 	maxNodes := 5
 	if tier == "thorough" {
-		nr, per, maxNodes = 64, 600, 6
+		nr, per, maxNodes = 64, 1500, 6
 	}
 	for i := 0; i < nr; i++ {
 		jobs = append(jobs, run.Job{Family: "random", Seed: seed*100000 + int64(i), N: per, P: map[string]int{"strat": 1, "maxlen": 7, "inputs": 6, "nl": 1}})
